@@ -229,6 +229,7 @@ fn alphabet(n: usize, full: bool) -> Vec<Dev> {
         s.variants[0].kind = Kind::Tuple(vec![FieldTy::LStr]);
         true
     }));
+    d.extend(crate::devs::rich_generic_devs(true));
     d.push(dev("discriminants: name + vis(pub)", &["dname"], |s| {
         s.extra_attrs.push("#[strum_discriminants(name(Dx), vis(pub))]".into());
         true
